@@ -2,7 +2,30 @@
 import TbbVerif.Core.Cint
 namespace TbbVerif.Generated.C13
 open TbbVerif.Cint
+set_option linter.unusedVariables false
 /-- is every `*(tmp->elem) = std::move(...)` of handle_operations inside a try block whose handler stores FAILED? -/
 def popAssignGuarded : Bool := false
+
+/-- first pass, guard of the pop that takes `data.back()`: `mark < data.size() && my_compare(data[0], data.back())` -/
+def shortcutP1 {α : Type} (cmp : α → α → Bool) (mark size : Nat) (dat : Nat → α) (back : α) : Bool :=
+  ((decide (mark < size)) && (cmp (dat 0) back))
+/-- second pass, guard of the pop that takes `data.back()`: `mark < data.size() && my_compare(data[0], data.back())` -/
+def shortcutP2 {α : Type} (cmp : α → α → Bool) (mark size : Nat) (dat : Nat → α) (back : α) : Bool :=
+  ((decide (mark < size)) && (cmp (dat 0) back))
+/-- second pass, guard of FAILED: `data.empty()` -/
+def emptyP2 (mark size : Nat) : Bool := (decide (size = 0))
+/-- guard of the final heapify: `mark < data.size()` -/
+def finishGuard (mark size : Nat) : Bool := (decide (mark < size))
+
+/-! statement skeleton of handle_operations (locals alpha-renamed; assertions, ITT notes, comments dropped) -/
+def topLevel : List String := ["while-op_list", "while-pop_list", "finish"]
+def p1Head : List String := ["take", "advance"]
+def p1PopShortcut : List String := ["elem=back", "size-1", "status=S:rel", "pop_back"]
+def p1PopDefer : List String := ["defer-link", "defer-head"]
+def p1Push : List String := ["try", "push_back", "size+1", "status=S:rel", "catch", "status=F:rel", "end-try"]
+def p2Head : List String := ["take", "advance"]
+def p2Empty : List String := ["status=F:rel"]
+def p2Shortcut : List String := ["elem=back", "size-1", "status=S:rel", "pop_back"]
+def p2Top : List String := ["elem=top", "size-1", "status=S:rel", "reheap"]
 
 end TbbVerif.Generated.C13
